@@ -115,14 +115,16 @@ CHECKS = {
     },
     "C15": {
         "level": "exploration",
+        "needs_cli": True,
         "rule": "exhaustive: merge_sections_many on every pair of sorted disjoint streams with <=2 intervals whose endpoints come from a set around base 0 and both 50,000-base window boundaries (x value patterns incl. cancelling and explicit zeros), every triple of <=1-interval streams, every <=3-interval stream alone / doubled / negated; merge_into on every overlapping pair over small coordinates; fill and fill_start_to_end on every WL(3) layout x start/end choices; each output compared with the per-base sum (exact: all values dyadic). The merge tool is covered by the tool part (see counters tool_*). non-trivial = every block",
-        "require": ["merge_runs", "merge_runs_with_2+_outputs", "merge_into_calls", "fill_runs"],
+        "require": ["merge_runs", "merge_runs_with_2+_outputs", "merge_into_calls", "fill_runs", "tool_merge_runs"],
         "assumptions": E1_ASSUME + ["the >978-input file-descriptor chunking path of the merge tool is outside the bounds"],
     },
     "C17": {
         "level": "exploration",
-        "rule": "exhaustive: for every WL(k) bigWig file and multi-chromosome core files, every region 0<=s<e<=16 on every chromosome through stats_for_bed_item and through the bigwig_average_over_bed iterator in 4 name modes; size, bases, sum, mean0, mean, min, max compared with the per-base array (NaN when nothing covered), one row per input row in order with the requested name. non-trivial = >=2 values in the file",
-        "require": ["regions", "iterator_rows"],
+        "needs_cli": True,
+        "rule": "exhaustive: for every WL(k) bigWig file and multi-chromosome core files, every region 0<=s<e<=16 on every chromosome through stats_for_bed_item and through the bigwig_average_over_bed iterator in 4 name modes; size, bases, sum, mean0, mean, min, max compared with the per-base array (NaN when nothing covered), one row per input row in order with the requested name; tool part: bigwigaverageoverbed on encoder-written bigWigs x region lists x name modes x --min-max x -t 1..16 (byte-identical for every thread count and equal to the reference at the printed precision) and bigwigvaluesoverbed. non-trivial = >=2 values in the file",
+        "require": ["regions", "iterator_rows", "tool_average_runs", "tool_values_runs"],
         "assumptions": E1_ASSUME + ["regions on chromosomes absent from the bigWig are outside the property's domain",
                                     "zero-length stored values inside a region are don't-care for the extrema"],
     },
@@ -143,6 +145,14 @@ CHECKS = {
         "assumptions": ["tokio's current-thread scheduler is deterministic given which awaits return Pending",
                         "preemption inside a task between two hook points (only possible on a multi-thread runtime) is not explored by layer 1; layer 3 samples it",
                         "the multi-threaded converters (bigwigtobedgraph / bigbedtobed) are covered by the command-line checks, not here"],
+    },
+    "C16": {
+        "level": "exploration",
+        "needs_cli": True,
+        "technique": "exhaustive enumeration of command-line configurations (thread counts, parallel/pass modes, flag styles, invocation styles) on the built binaries, round trip compared with the input and with the library's range queries; OS thread schedules are sampled (the schedule quantifier is C11/C12's)",
+        "rule": "every configuration of the product threads x parallel x single-pass x inmemory x uncompressed x block-size x zooms x {applet, bigtools <sub>} x {native, UCSC flag spellings and tool names} (quick: systematic 1-in-19 subsample; thorough: full product) on 4 bedGraph and 4 BED inputs: forward conversion must succeed and honour the options (independent decoder), back conversion with -t 1/2/6/16 must return the original records in order (identical text for every thread count), and 7 restricted (chrom,start,end) outputs per file must equal the library's range query and contain every overlapping input record. non-trivial = every configuration",
+        "require": ["process_runs", "restricted_queries"],
+        "assumptions": E1_ASSUME + ["OS thread schedules of the multi-threaded tools are sampled, not enumerated"],
     },
 }
 
